@@ -63,6 +63,51 @@ class TNorm(a4_shape.Norm):
                     r = pick(body)
                     if r:
                         body = [r]
+                    elif r is False or r is None:
+                        # general value form: declarations of single-assignment locals, `if (c) return a;` chains and a final
+                        # return read as one conditional expression (constant tests of the arguments pick their arm)
+                        linl = {}
+
+                        def value(stmts):
+                            for i, st in enumerate(stmts):
+                                k = st.get("k")
+                                if k == "Decl":
+                                    for v in st.get("vars", []):
+                                        if v.get("init") is None or "d" not in v:
+                                            return None
+                                        linl[v["d"]] = v["init"]
+                                    continue
+                                if k == "Block":
+                                    return value(list(st.get("s", [])) + list(stmts[i + 1:]))
+                                if k == "Return":
+                                    return st.get("e")
+                                if k == "If":
+                                    tb = st.get("t")
+                                    tv = value(tb.get("s", []) if isinstance(tb, dict) and tb.get("k") == "Block" else [tb])
+                                    eb = st.get("e")
+                                    rest = (list(eb.get("s", [])) if isinstance(eb, dict) and eb.get("k") == "Block" else ([eb] if eb is not None else [])) + list(stmts[i + 1:])
+                                    ev = value(rest)
+                                    if tv is None or ev is None:
+                                        return None
+                                    cv = cval(st["c"])
+                                    if cv is True:
+                                        return tv
+                                    if cv is False:
+                                        return ev
+                                    return {"k": "Cond", "c": st["c"], "a": tv, "e": ev, "t": cal.get("ret")}
+                                return None
+                            return None
+                        val = value(body)
+                        if val is not None:
+                            saved = self.inline
+                            self.inline = dict(saved)
+                            self.inline.update(linl)
+                            for p, a in zip(cal["params"], e["args"]):
+                                self.inline[p["d"]] = a
+                            try:
+                                return self.key(val, depth + 1)
+                            finally:
+                                self.inline = saved
                 if len(body) == 1 and body[0].get("k") == "Return" and body[0].get("e") is not None and len(cal["params"]) == len(e.get("args", [])):
                     saved = self.inline
                     self.inline = dict(saved)
